@@ -103,6 +103,14 @@ def gen(rng, tier):
                     s.loads.append({"kind": "c", "term": rng.choice(["fx", "fy", "mz"]), "local": rng.random() < 0.5, "bar": b["id"], "t": tt,
                                     "v": Fr(rng.choice([-1, 1]) * rng.choice([75, 600, 3000]))})
                     break
+        if g % 3 == 1:
+            # an axial member (pinned at both ends): a global end load declared before a local one
+            ax = [b for b in s.bars if not b["l1"][2] and not b["l2"][2] and not any(l["bar"] == b["id"] and (l["kind"] == "d" or l["t"] not in (Fr(0), Fr(1))) for l in s.loads)]
+            for b in ax[:2]:
+                s.loads = [l for l in s.loads if l["bar"] != b["id"]]
+                tt = Fr(rng.choice([0, 1]))
+                s.loads.append({"kind": "c", "term": "fx", "local": False, "bar": b["id"], "t": tt, "v": Fr(rng.choice([20, -35]))})
+                s.loads.append({"kind": "c", "term": "fy", "local": True, "bar": b["id"], "t": tt, "v": Fr(rng.choice([-30, 45]))})
         iso = isotropic(s)
         rots = ROTS if iso else [r for r in ROTS if r[0] == 0 or r[1] == 0]
         cr, sr = rng.choice(rots)
